@@ -192,11 +192,15 @@ func processFile(filePath string, ctxt *processors.Context, checkOnly bool) erro
 		lines = append(lines, string(line))
 	}
 
-	if !checkStandardHeader(lines) {
+	if checkStandardHeader(lines) {
+		// The header is added back below, together with the empty line that follows it.
+		// A file that consists of nothing but the header keeps that empty line this way.
+		lines = lines[min(3, len(lines)):]
+	} else {
 		logger.Info().Msgf("file %s does not have standard header", filename)
-		// prepend the standard header
-		lines = append([]string{regexAssemblyStandardHeader}, lines...)
 	}
+	// prepend the standard header
+	lines = append([]string{regexAssemblyStandardHeader}, lines...)
 	lines = formatEndOfFile(lines)
 
 	newContents := []byte(strings.Join(lines, "\n"))
@@ -313,8 +317,10 @@ func formatEndOfFile(lines []string) []string {
 }
 
 func checkStandardHeader(lines []string) bool {
-	if len(lines) >= 3 &&
-		fmt.Sprintf("%s\n%s\n%s", lines[0], lines[1], lines[2]) == regexAssemblyStandardHeader {
+	// the two header lines, followed by an empty line or by nothing at all
+	if len(lines) >= 2 &&
+		fmt.Sprintf("%s\n%s\n", lines[0], lines[1]) == regexAssemblyStandardHeader &&
+		(len(lines) == 2 || lines[2] == "") {
 		return true
 	}
 	return false
